@@ -130,10 +130,12 @@ type side struct {
 	expectID peer.ID // resolved expectation
 	conn     *simnet.Conn
 	timeout  time.Duration
+	keepOpen bool
 	st       sec.SecureTransport
 	edh      *edh
 
 	// results, written only by the side's own task
+	timedOut  bool // written by the watchdog task before it closes the connection
 	hsOK      bool
 	errKind   string // "", "mismatch", "timeout", "error"
 	rPeer     peer.ID
@@ -158,31 +160,60 @@ func classify(err error) string {
 
 // run is the body of the side's task: handshake with a virtual deadline, then one application
 // write and one read (TLS 1.3 clients learn about a rejection by the server only there).
+//
+// The context carries a virtual deadline (the Noise transport turns it into a connection deadline),
+// but a stalled handshake is ended one virtual second earlier by a watchdog that closes the raw
+// connection: Noise arms the connection deadline and the context timer for the very same instant and
+// selects on both, and which of two same-instant timers the Go runtime fires first is not a function
+// of the tape.
 func (s *side) run() {
 	ctx, cancel := context.WithTimeout(context.Background(), s.timeout)
 	defer cancel()
+	wd := simrt.AfterFunc(s.timeout-time.Second, func() {
+		s.timedOut = true
+		s.conn.Close()
+	})
+	var nc net.Conn = s.conn
+	if s.keepOpen {
+		nc = keepOpen{s.conn}
+	}
 	var sc sec.SecureConn
 	var err error
 	if s.init {
-		sc, err = s.st.SecureOutbound(ctx, s.conn, s.expectID)
+		sc, err = s.st.SecureOutbound(ctx, nc, s.expectID)
 	} else {
-		sc, err = s.st.SecureInbound(ctx, s.conn, s.expectID)
+		sc, err = s.st.SecureInbound(ctx, nc, s.expectID)
 	}
+	wd.Stop()
 	if err != nil {
 		s.errKind = classify(err)
-		s.conn.Close()
+		if s.timedOut {
+			s.errKind = "timeout"
+		}
+		nc.Close()
 		return
 	}
 	s.hsOK = true
 	s.rPeer = sc.RemotePeer()
 	s.rKey = sc.RemotePublicKey()
-	exchange(sc, s.role, s.partner.role, &s.wrote, &s.dataOK, &s.dataBogus)
+	wait := 5 * time.Second
+	if !s.init {
+		wait = 6 * time.Second
+	}
+	exchange(sc, wait, s.role, s.partner.role, &s.wrote, &s.dataOK, &s.dataBogus)
 	sc.Close()
-	s.conn.Close()
+	nc.Close()
 }
 
-func exchange(c net.Conn, me, peerRole string, wrote, ok, bogus *bool) {
-	c.SetDeadline(time.Now().Add(5 * time.Second))
+// keepOpen defers the closing of the raw connection to the end of the run. Used when Mallory re-pairs
+// two sessions: the wire of session a then carries the conversation of a's initiator with b's responder,
+// and a FIN caused by one conversation must not cut the other one short (Mallory would not forward it).
+type keepOpen struct{ net.Conn }
+
+func (keepOpen) Close() error { return nil }
+
+func exchange(c net.Conn, wait time.Duration, me, peerRole string, wrote, ok, bogus *bool) {
+	c.SetDeadline(time.Now().Add(wait))
 	if _, err := c.Write([]byte(tagOf(me))); err == nil {
 		*wrote = true
 	}
@@ -238,10 +269,33 @@ type session struct {
 }
 
 type pipeEnv struct {
-	o   *common.Outcome
-	n   *simnet.Net
-	wg  *simsync.WaitGroup
-	seq int
+	o    *common.Outcome
+	n    *simnet.Net
+	wg   *simsync.WaitGroup
+	seq  int
+	tpts map[string]sec.SecureTransport
+}
+
+// transportFor returns the party's security transport. Within a run a process (identity + options) has
+// ONE transport object, as in a real node: concurrent and successive sessions of the same party share
+// it, so state that leaks from one handshake into another shows up as a wrong identity. Parties with an
+// early-data handler get a transport of their own (the handler records what this one session received).
+func (e *pipeEnv) transportFor(p party) (sec.SecureTransport, *edh, error) {
+	if p.early != "" {
+		return p.transport()
+	}
+	key := fmt.Sprintf("%s|%v|%v|%q|%v", p.id, p.tls, p.session, p.prologue, p.noCheck)
+	if t, ok := e.tpts[key]; ok {
+		return t, nil, nil
+	}
+	t, _, err := p.transport()
+	if err == nil {
+		if e.tpts == nil {
+			e.tpts = map[string]sec.SecureTransport{}
+		}
+		e.tpts[key] = t
+	}
+	return t, nil, err
 }
 
 // lastIdx is the index of the last handshake frame a receiver reads in a direction: what arrives
@@ -288,7 +342,7 @@ func (e *pipeEnv) start(name string, ip, rp party, ed edit, crossI, crossR ident
 	s.R.expectID = resolveExpect(rp, ip.id, crossI)
 	for _, x := range []*side{s.I, s.R} {
 		var err error
-		if x.st, x.edh, err = x.p.transport(); err != nil {
+		if x.st, x.edh, err = e.transportFor(x.p); err != nil {
 			d.Close()
 			l.Close()
 			return nil, fmt.Errorf("transport for %s: %w", x.p.id, err)
@@ -322,7 +376,7 @@ func (s *side) accepts(t ident) bool {
 		return true
 	}
 	if s.expectID == "" {
-		return s.p.tls || !s.init || s.p.session && s.p.noCheck // Noise outbound always checks
+		return s.p.tls || !s.init // a Noise initiator always checks
 	}
 	return s.expectID == pidOf(t)
 }
@@ -375,6 +429,14 @@ func (s *session) log(o *common.Outcome) {
 	if s.m.fired {
 		o.Logf("  mallory(%s): %s", s.name, s.m.note)
 	}
+	// sizes of the original frames (crypto randomness shows in some of them: trace only)
+	var sz [2][]int
+	for d := 0; d < 2; d++ {
+		for _, f := range s.m.rec[d] {
+			sz[d] = append(sz[d], len(f))
+		}
+	}
+	o.Logf("  frames seen by mallory(%s): I>R %v R>I %v", s.name, sz[0], sz[1])
 }
 
 func prologueMismatch(a, b party) bool { return string(a.prologue) != string(b.prologue) }
@@ -391,12 +453,10 @@ func judge(o *common.Outcome, s *session, what string) {
 				"%s: %s completed the handshake (%s) although it received handshake data that was %s (%s)", what, x.role, x.outcome(), x.mustFail, s.m.note)
 		}
 	}
-	if prologueMismatch(s.I.p, s.R.p) {
-		// doc of noise.Prologue: "The handshake will only complete successfully if both parties set the same prologue."
-		for _, x := range []*side{s.I, s.R} {
-			if x.hsOK {
-				o.Violate("C01/prologue-ignored/"+roleName(x.init), "%s: %s completed with prologue %q, its partner used %q", what, x.role, x.p.prologue, x.partner.p.prologue)
-			}
+	// doc of noise.Prologue: "The handshake will only complete successfully if both parties set the same prologue."
+	for _, x := range []*side{s.I, s.R} {
+		if x.hsOK && prologueMismatch(x.p, x.partner.p) {
+			o.Violate("C01/prologue-ignored/"+roleName(x.init), "%s: %s completed with prologue %q, its partner used %q", what, x.role, x.p.prologue, x.partner.p.prologue)
 		}
 	}
 }
@@ -433,7 +493,7 @@ func markMustFail(s *session) {
 		recv = s.I
 	}
 	switch e.kind {
-	case edFlip, edTruncFix, edTruncRaw, edExtendFix, edDrop, edSwap, edReplay, edReplayDir:
+	case edFlip, edTruncFix, edTruncRaw, edExtendFix, edDrop, edSwap, edReplay, edReplayDir, edCut:
 		recv.mustFail = edNames[e.kind]
 	case edDup, edExtendRaw:
 		// the frame itself arrives intact; what follows it is handshake data only if the receiver still
